@@ -32,14 +32,34 @@ def family(ctx: Ctx, thorough_budget: int = 4, quick_cap: int = 1200) -> List[Tu
     shape_atoms = [A["rekey"][0], oc_ne_upd, A["fee"][1], A["crt"][0]]
     layout_atoms = [A["rekey"][0], A["fee"][0], oc_ne_upd, A["type"][0]]
     pairs = (A["type"][:6] + A["oc"][:4], A["crt"][:4] + A["sender"][:4] + A["act"][:2])
+    if ctx.quick:
+        shape_atoms = [shape_atoms[ctx.seed % 4], shape_atoms[(ctx.seed + 1) % 4]]
     progs = families.family_d(ctx.quick, ctx.seed, full, small, shape_atoms, layout_atoms, pairs,
                               thorough_budget=thorough_budget, quick_cap=quick_cap, unroll3_slice=False)
     # group-size-check: programs that read another transaction by absolute index
     pre = (tg.Use("gtxn_read", 0),)
-    gsf = families.family_d(ctx.quick, ctx.seed, A["gs"], A["gs"][:3], [A["gs"][0], A["gs"][9]], [A["gs"][0], A["gs"][5]],
+    gsf = families.family_d(ctx.quick, ctx.seed, A["gs"], A["gs"][:3], [A["gs"][0]] if ctx.quick else [A["gs"][0], A["gs"][9]], [A["gs"][0], A["gs"][5]],
                             ([], []), pre=pre, with_corpus=False, thorough_budget=3, quick_cap=300, unroll3_slice=False)
     progs += [("gs/" + n, s, sp) for n, s, sp in gsf]
     for use in (tg.Use("gtxns_read", 1), tg.Use("rel_read", 1), tg.Use("pad")):
         for a in A["gs"][:8]:
             progs.append((f"gsu/{use.kind}-{a.op}{a.const[1]}{a.order}", tg.emit(tg.Program((use, tg.Check(a, "assert"), tg.Exit("approve")))), {}))
+    # checks made through gtxn forms, with and without a pin of the own index
+    GI, GS = ("txn", "GroupIndex"), ("global", "GroupSize")
+    pins = [None, tg.Atom(GI, "==", ("int", 1)), tg.Atom(GI, "==", ("int", 0)), tg.Atom(GI, "!=", ("int", 1)), tg.Atom(GS, "==", ("int", 2)), tg.Atom(GI, "==", ("int", 1), "cf")]
+    gchecks = []
+    for ref in (("gtxn", 1, "RekeyTo"), ("gtxns_int", 1, "RekeyTo"), ("gtxns_rel", -1, "RekeyTo"), ("gtxns_self", "RekeyTo")):
+        if ref[0] == "gtxns_self":
+            continue
+        gchecks.append(tg.Atom(ref, "==", ("zero",)))
+    gchecks.append(tg.Atom(("gtxn", 1, "Fee"), "<=", ("int", 1000)))
+    gchecks.append(tg.Atom(("gtxn", 1, "OnCompletion"), "!=", ("named", "UpdateApplication")))
+    gchecks.append(tg.Atom(("gtxn", 0, "CloseRemainderTo"), "==", ("zero",), "cf"))
+    for i, pin in enumerate(pins):
+        for j, chk in enumerate(gchecks):
+            for how in ("assert", "bz_reject"):
+                pre_ = () if pin is None else (tg.Check(pin, "assert"),)
+                progs.append((f"gx/{i}-{j}-{how}", tg.emit(tg.Program(pre_ + (tg.Check(chk, how), tg.Exit("approve")))), {}))
+                if pin is not None:
+                    progs.append((f"gxif/{i}-{j}-{how}", tg.emit(tg.Program((tg.If(pin, (tg.Check(chk, how), tg.Exit("approve")), (tg.Exit("approve"),), "bz"),))), {}))
     return progs
